@@ -48,6 +48,9 @@ CLAIMED = {
  "C18": ("taint/provenance analysis of every conversion to an html/template trusted-markup type (sanitiser and alphabet-safe tables, parameters followed into all callers), template-engine and writer check of every Execute call, classification of every direct response-body write",
          "Every operand converted to template.HTML & co. is built only from constants, HTML-escaped values and alphabet-safe encodings (url.URL.String() is not a sanitiser); every page is rendered by html/template; text/template never writes to a response; every direct body write is http.Error, follows a non-HTML content type, is a constant / numeric-prefixed line, or server-produced key material.",
          "html/template's contextual escaping and the browser's tokenizer are trusted; the sanitiser table is part of the checker.", "DESIGN.md §3 C18"),
+ "C19": ("type-directed taint over the client packages (private-key types and private-marshal results vs request/HTTP/multipart/header/logger/connection sinks), forward-flow check of marshalled private keys to WriteFile(0600), public-only provenance of submitted key text, dominance rules of the agent upsert, client/server agreement of key types via regexp/syntax",
+         "In the client packages no private-key-typed value or marshalled private key reaches a network or log sink; marshalled private keys reach only 0600 file writes (and are never chmod-ed wider); submitted key text derives only from signer.Public(); the agent upsert removes same-comment certificates of any key type before adding; every key type the client generates is in the server's key-type alternation and meets its strength constants.",
+         "The client is type-checked with CGO_ENABLED=0 (only third-party flynn/u2f/u2fhid fails); bytes on the wire and the OS agent are not observed.", "DESIGN.md §3 C19"),
  "C12": ("dominance of the token-minting calls by the conjunction of code/client/expiry/redirect/type facts, decision-structure classification of the client-authentication flag, shape check of the PKCE verifier, store-provenance of token fields",
          "Both minting calls of the token endpoint are dominated on all paths by the verified code, client authentication, client==code.sub, strict expiry, equal redirect_uri and the code type; the authentication flag is true only from PKCE (secret-less client) or a non-empty secret; the PKCE verifier compares against the challenge decrypted from the same code; token/code/userinfo fields have the stated provenance (field-store analysis).",
          "Trusts go-jose and JSON encoding. Field provenance is judged per store into the token structs in the current source.", "DESIGN.md §3 C12"),
